@@ -171,7 +171,7 @@ def run(desc, ctx):
     if den == 1 and not desc.get("as_float", False):
         vals = [[int(x) for x in row] for row in k]
     else:
-        vals = [[x / den for x in row] for row in k]  # k/4 with |k| <= 44: exact in binary floating point
+        vals = [[x / den for x in row] for row in k]  # k/4 with |k| <= 36: exact in binary floating point
     tp = desc.get("tuples", 0)
     if tp == 1:
         vals = [tuple(row) for row in vals]
@@ -269,7 +269,7 @@ def run(desc, ctx):
 
 
 SUBS = [
-    Sub("hungarian", run, strategy=lambda tier: matrices(tier), quick=1500, thorough=6000, workers_quick=4, case_timeout=20.0),
-    Sub("hungarian_large", run, strategy=lambda tier: matrices(tier, large=True), quick=150, thorough=1500, workers_quick=2, case_timeout=20.0),
-    Sub("tie_exhaustive", run, enumerate=tie_cases, workers_quick=2, case_timeout=20.0),
+    Sub("hungarian", run, strategy=lambda tier: matrices(tier), quick=1500, thorough=6000, workers_quick=4, case_timeout=20.0, hang="violation"),
+    Sub("hungarian_large", run, strategy=lambda tier: matrices(tier, large=True), quick=150, thorough=1500, workers_quick=2, case_timeout=20.0, hang="violation"),
+    Sub("tie_exhaustive", run, enumerate=tie_cases, workers_quick=2, case_timeout=20.0, hang="violation"),
 ]
